@@ -736,3 +736,4 @@ def split_votes(rng, n=None, m=None, ties=False):
                 D.append([list(b) for b in r])
     rng.shuffle(D)
     return D[:m]
+
